@@ -115,6 +115,44 @@ def mutation_step_ops(h: Harness, rng):
                     break
 
 
+def crossover_step_ops(h: Harness, rng):
+    """crossover as the SEARCH applies it (GenericCrossoverStep(1)): every gene of every offspring comes from one of the two individuals
+    paired at that position, at the same locus -- also when selection with repetition has placed an individual next to itself"""
+    import pargrammar
+    from geneticengine.algorithms.gp.operators.crossover import GenericCrossoverStep
+    from geneticengine.evaluation.sequential import SequentialEvaluator
+    from geneticengine.problems import SingleObjectiveProblem
+    from geneticengine.random.sources import NativeRandomSource
+    from geneticengine.solutions.individual import Individual
+    g = pargrammar.grammar()
+    problem = SingleObjectiveProblem(lambda p: 0.0)
+    shared = NativeRandomSource(1)
+    for name, mk in (("GE", lambda: GE(g, synth.make_decider("grow", 4, shared, g), gene_length=24)), ("Stack", lambda: Stack(g, gene_length=300)),
+                     ("SGE", lambda: SGE(g, synth.make_decider("grow", 4, shared, g), gene_length=12))):
+        rep = mk()
+        r = NativeRandomSource(rng.randrange(10**6))
+        base = [Individual(rep.create_genotype(r), rep) for _ in range(6)]
+        # the step pairs position i with position i + 1 (offspring 2i and 2i + 1): some pairs are one individual twice
+        pop = [base[0], base[0], base[1], base[2], base[3], base[3], base[4], base[5], base[5], base[5]]
+        try:
+            out = list(GenericCrossoverStep(1).apply(problem, SequentialEvaluator(), rep, r, list(pop), len(pop), 0))
+        except Exception as e:  # noqa: BLE001
+            h.fail(f"{name}:GenericCrossoverStep", "raises", f"GenericCrossoverStep(1) on {name} genotypes: {type(e).__name__}: {e}", [name])
+            continue
+        h.count(f"crossover-step:{name}")
+        for j, o in enumerate(out):
+            ia, ib = (j // 2) % len(pop), (j // 2) % len(pop) + 1
+            pa, pb = geno_flat(pop[ia].genotype), geno_flat(pop[ib].genotype)
+            a = geno_flat(o.genotype)
+            h.seen(f"crossover-step:{name}:{j}:{hash(tuple(a)) % 9973}", nontrivial=True)
+            if len(a) != len(pa) or any(a[k] != pa[k] and a[k] != pb[k] for k in range(len(a))):
+                same = pop[ia] is pop[ib]
+                h.fail(f"{name}:GenericCrossoverStep", "gene-not-from-parents-at-locus",
+                       f"{name}: offspring #{j} of GenericCrossoverStep(1) has a gene that neither of the two individuals paired at its position carries at that locus"
+                       + (" (the pair is ONE individual twice: its offspring are its copies)" if same else ""), [name, j])
+                break
+
+
 def geno_flat(genotype) -> list:
     dna = genotype.dna
     if isinstance(dna, dict):
@@ -192,9 +230,15 @@ def dsge_histories(h: Harness, rng):
                            C("Not", False, 1, [("c", ("cls", 1))]), C("T", False, 1, []),
                            C("Many", False, 0, [("xs", ("ann", ("list", ("cls", 0)), ("listSize", 1, 2))), ("u", ("union", ("cls", 1), "bool"))])],
                           0, [2, 3, 4, 5, 6, 7, 8, 0, 1])
+    # ... and a grammar whose Union types mention refinement objects (the gene-list key of such a field is a typing construct that
+    # holds a ListSizeBetween / IntRange instance)
+    r02 = ("ann", "int", ("intRange", 0, 2))
+    refined_unions = gram.Spec([C("A0", True, None), C("Lit", False, 0, [("k", r02)]), C("Add", False, 0, [("l", ("cls", 0)), ("r", ("cls", 0))]),
+                                C("Pick", False, 0, [("c", ("union", r02, ("cls", 1))),
+                                                     ("d", ("union", ("cls", 1), ("ann", ("list", ("cls", 0)), ("listSize", 1, 2))))])], 0, [1, 2, 3])
     for it in range(h.n(12, 40) + h.n(40, 300)):
         fixed = it < h.n(12, 40)
-        spec = many_keys if fixed else gram.productive_spec(rng, max_classes=rng.choice([4, 5, 6]), opts={"float": rng.random() < 0.5, "str": False})
+        spec = (many_keys if it % 2 == 0 else refined_unions) if fixed else gram.productive_spec(rng, max_classes=rng.choice([4, 5, 6]), opts={"float": rng.random() < 0.5, "str": False})
         b = gram.build(spec)
         try:
             g = b.extract()
@@ -220,6 +264,13 @@ def dsge_histories(h: Harness, rng):
             if st != "ok":
                 break
             for c in cs:
+                # every symbol a child holds genes for is a symbol one of its parents holds genes for (by Python's own equality of the keys)
+                foreign_keys = [k for k in c.dna if k not in p1.dna and k not in p2.dna]
+                if foreign_keys:
+                    h.fail("DynamicSGE.crossover", "gene-not-from-parents-at-locus",
+                           f"dSGE child holds genes under {str(foreign_keys[0])[:100]}, a symbol neither parent has genes for (a copy of a parent's key that is not equal to it?)",
+                           [s1, s2, step])
+                    continue
                 h.holds("DynamicSGE.crossover", "gene-not-from-parents-at-locus", ["prop_dsge_locus", s1, s2, linear.dsge_sx(c.dna, b)],
                         "dSGE child (parents that had been mapped) has a gene list that is neither parent's list for that key", [s1, s2, step])
                 # every locus of a child has a gene list of its own: one list object under two symbols would receive the genes of both
@@ -367,6 +418,7 @@ def run(h: Harness):
     tree_crossover_generations(h, h.rng)
     linear_ops(h, h.rng)
     mutation_step_ops(h, h.rng)
+    crossover_step_ops(h, h.rng)
     structured_ops(h, h.rng)
     dsge_ops(h, h.rng)
     dsge_histories(h, h.rng)
